@@ -15,7 +15,7 @@ pub const DEF: PropDef = PropDef {
     run,
     replay,
     level: "exploration",
-    rule: "primitive objects obtained from DefaultResolver and RingResolver are compared with independent oracles on generated inputs: (hash) digest, HMAC and Noise-HKDF for all hashes of the backend with HMAC keys 0..=block length, data 0..=3 blocks +-1 (and larger), HKDF with 1/2/3 outputs; (aead) encrypt under (key, 64-bit nonce incl. every single bit and high bytes, AD length ladder 0..=257, 1000, 4 KiB+-1, 16 KiB, 32 KiB, 65535 and random up to 9000, plaintext length ladder up to 65535 (the statement's range; larger than any Noise message allows)) equals the standard cipher with the Noise nonce encoding, decrypt inverts it for both output-buffer paths, every single-bit change of ciphertext/tag/AD/nonce/key is rejected, rekey() equals REKEY; (dh) public keys and shared secrets for scalars and points incl. RFC 7748 / RFC 5903 vectors, clamping edge bits, non-canonical and low-order X25519 points, invalid P-256 points; generate() from a seeded RNG gives pubkey == oracle_pub(privkey) and distinct keys, and so does Builder::generate_keypair (full-length public key, both backends). Oracles: ring (SHA-2, AEAD, X25519, P-256) and own RFC 7693/2104/Noise-HKDF code for the default backend; RustCrypto called directly for the ring backend; the two oracle families are cross-checked on every run. Non-trivial = every comparison on a distinct generated input",
+    rule: "primitive objects obtained from DefaultResolver and RingResolver are compared with independent oracles on generated inputs: (hash) digest, HMAC and Noise-HKDF for all hashes of the backend with HMAC keys 0..=block length, data 0..=3 blocks +-1 (and larger), HKDF with 1/2/3 outputs; (aead) encrypt under (key, 64-bit nonce incl. every single bit and high bytes, AD length ladder 0..=257, 1000, 4 KiB+-1, 16 KiB, 32 KiB, 65535 and random up to 9000, plaintext length ladder up to 65535 (the statement's range; larger than any Noise message allows)) equals the standard cipher with the Noise nonce encoding, decrypt inverts it for both output-buffer paths, every single-bit change of ciphertext/tag/AD/nonce/key is rejected, rekey() equals REKEY; (dh) public keys and shared secrets for scalars and points incl. RFC 7748 / RFC 5903 vectors, clamping edge bits, non-canonical and low-order X25519 points, invalid P-256 points, the object's own public key as the peer's; generate() from a seeded RNG gives pubkey == oracle_pub(privkey) and distinct keys, and so does Builder::generate_keypair (full-length public key, both backends). Oracles: ring (SHA-2, AEAD, X25519, P-256) and own RFC 7693/2104/Noise-HKDF code for the default backend; RustCrypto called directly for the ring backend; the two oracle families are cross-checked on every run. Non-trivial = every comparison on a distinct generated input",
     technique: "differential testing of primitives against independent implementations and RFC known answers (proptest + boundary enumeration)",
     assumptions: &[
         "preconditions every internal caller guarantees are respected by the generator (output buffer >= input + 16, ciphertext >= 16 bytes, HMAC key <= block length, 32-byte HKDF chaining keys of hash length)",
@@ -368,6 +368,10 @@ fn oracle(c: &Case, acc: &mut Acc) -> CaseResult {
                     peer = vec![0u8; 65];
                     expect_err = true;
                 },
+                // the object's OWN public key as the peer's key (a node talking to itself; the
+                // `ss` token of a session whose two parties share one identity)
+                (DhKind::P256, 4) => peer = want_pub.clone(),
+                (DhKind::X25519, 0) if seed % 3 == 1 => peer = want_pub.clone(),
                 _ => {},
             }
             let mut out = [0u8; 65];
